@@ -31,7 +31,7 @@ class C18(InterpProp):
 
     def knobs(self, rnd, tier):
         return gen.Knobs(contracts=self.with_contracts, p_history=0.6, sends=0.4, nested_targets=0.5,
-                         max_states=rnd.choice([6, 10, 14]), history_focus=0.6)
+                         max_states=rnd.choice([6, 10, 14]), history_focus=0.6, clock_moves=rnd.choice([0, 0.3]))
 
     BOX = ("\n(event.box.append(1) if getattr(event, 'box', None) is not None else None)"
            "\ny = y + (len(event.box) if getattr(event, 'box', None) is not None else 0)")
@@ -149,7 +149,7 @@ class C18(InterpProp):
         copy_first = rnd.random() < 0.5
         p_snap = 1.0 if tier == 'thorough' and rnd.random() < 0.3 else rnd.choice([0.1, 0.25, 0.5])
         for op in ops1:
-            if op[0] == 'exec' and rnd.random() < p_snap:
+            if (op[0] == 'exec' and rnd.random() < p_snap) or (op[0] == 'queue' and rnd.random() < p_snap * 0.3):
                 how = rnd.choice(['pickle', 'deepcopy', 'pickle-keep', 'deepcopy-keep', 'deepcopy-both', 'pickle-both'])
                 if how.endswith('-both') and (len(subjects) >= 3 or not side_by_side):
                     how = how.replace('-both', '')
